@@ -38,19 +38,8 @@ def r_C17fgh(root):
         ob("C17", "C17.f", S, q, "importer registered before load_model", bad is None and bool(ups))
         if bad is not None or not ups:
             out.append(Finding("C17", "C17.f", S, q, " ".join(ast.unparse((bad or lds[0]).ast).split())[:100], "a referenced file is loaded before the importing model is entered into the repository: an import cycle back to the importer re-reads and re-parses it, and the second copy replaces the first in the repository", witness="a imports b, b imports a (search_path provider, no global repository)"))
-    # ---- C17.g
-    tp = load(root, P); lm = find(tp, "ImportURI.load_models"); fl = sem.info(lm)
-    conn = [c for c in calls(lm, own=True) if callee_name(c) == "GlobalModelRepository" and c.args]
-    if not conn: raise AnalysisError("ImportURI.load_models: connection to the global repository not found")
-    for c in conn:
-        inst += 1; extra = []
-        for a_, p_ in fl.atoms_at(c):
-            u = a_.replace(" ", "")
-            if u.startswith("hasattr(") and "_tx_model_repository" in u: continue
-            extra.append((u, p_))
-        ob("C17", "C17.g", P, "ImportURI.load_models", ast.unparse(c)[:80], not extra)
-        for u, p_ in extra:
-            out.append(Finding("C17", "C17.g", P, "ImportURI.load_models", ("" if p_ else "not ") + u, "whether a model shares the metamodel's global repository also depends on %s: models for which it fails get a private repository, files they reference are re-read on every load and their elements exist twice" % u, witness="global_repository=True, model_from_str without file name, provider with a file pattern"))
+    # ---- C17.g (which repository a model gets in ImportURI.load_models) is decided by evaluation: C17.n, sa/rules/c17e.py
+    tp = load(root, P)
     # ---- C17.h
     tm = load(root, MM); imf = find(tm, "TextXMetaModel.internal_model_from_file"); fm = sem.info(imf)
     look = [n for n in own_nodes(imf) if isinstance(n, ast.Assign) and isinstance(n.value, ast.Subscript) and "all_models" in ast.unparse(n.value.value)]
@@ -105,6 +94,19 @@ def r_C17i(root):
             fi = sem.info(fn); inst += 1
             def fresh(e, at, depth=0):
                 if isinstance(e, ast.Call) and callee_name(e) == "GlobalModelRepository": return True
+                if isinstance(e, ast.Call) and isinstance(e.func, ast.Attribute) and isinstance(e.func.value, ast.Name) and e.func.value.id == "GlobalModelRepository":
+                    # an alternative constructor of the repository class: every return of it is a new instance (cls(...) / GlobalModelRepository(...))
+                    fac = [f_ for c_ in ast.walk(load(root, "textx/scoping/__init__.py")) if isinstance(c_, ast.ClassDef) and c_.name == "GlobalModelRepository" for f_ in c_.body if isinstance(f_, ast.FunctionDef) and f_.name == e.func.attr]
+                    if len(fac) == 1:
+                        rets = [r_ for r_ in own_nodes(fac[0]) if isinstance(r_, ast.Return) and r_.value is not None]
+                        ff = sem.info(fac[0])
+                        def newinst(v, at2, d2=0):
+                            if isinstance(v, ast.Call) and isinstance(v.func, ast.Name) and v.func.id in ("cls", "GlobalModelRepository"): return True
+                            if isinstance(v, ast.Name) and d2 < 3:
+                                nd2 = ff.node_of(at2); ds2 = ff.rd.defs_of(nd2, v.id) if nd2 is not None else []
+                                return bool(ds2) and all(ff.cfg.nodes[d_].kind == "stmt" and isinstance(ff.cfg.nodes[d_].ast, ast.Assign) and newinst(ff.cfg.nodes[d_].ast.value, ff.cfg.nodes[d_].ast, d2 + 1) for d_ in ds2)
+                            return False
+                        if rets and all(newinst(r_.value, r_) for r_ in rets): return True
                 if isinstance(e, ast.Name) and depth < 4:
                     nd = fi.node_of(at); ds = fi.rd.defs_of(nd, e.id) if nd is not None else []
                     if not ds: return False
